@@ -74,6 +74,10 @@ void WorldQ::check_bounce(GMsg *b) {
   if (esender != want_sender) { violate("C14.bounce-envelope-sender", "bounce of msg " + std::to_string(on) + " (sender \"" + printable(osender) + "\") has envelope sender \"" + printable(esender) + "\", expected \"" + want_sender + "\""); return; }
   if (ercpt.size() != 1 || ercpt[0] != want_rcpt) { violate("C14.bounce-recipient", "bounce of msg " + std::to_string(on) + " goes to \"" + (ercpt.empty() ? std::string("<none>") : printable(ercpt[0])) + "\" (" + std::to_string(ercpt.size()) + " recipients), expected \"" + printable(want_rcpt) + "\""); return; }
   o->bounces_sent++;
+  // "bounces go back once": a second bounce for the same message is excusable only after something failed for real (a crash, a
+  // failing call, a fault inside the injecting child); an interrupted wait is not a failure
+  if (o->bounces_sent > 1 && !had_crash && !had_proc_crash) { bool excuse = false; for (auto &f : k->faults) if (f.fired && (f.kind == "error" || f.kind == "short" || f.kind == "kill" || f.kind == "crash" || f.kind == "null" || f.kind == "stall")) excuse = true;
+    if (!excuse) { violate("C14.bounce-sent-twice", "a second bounce was queued for msg " + std::to_string(on) + " (sender \"" + printable(osender) + "\") although nothing failed"); return; } }
   // --- body
   const std::string &body = mi->data;
   size_t p = body.find('\n'); if (p == std::string::npos || body.compare(0, 17, "Received: (qmail ") != 0) { violate("C14.bounce-format", "no Received line"); return; }
